@@ -139,6 +139,26 @@ static void history_cases(void) {
       vx_input(base.dig ^ ((uint64_t)x << 50) ^ ((uint64_t)(x2 + 1) << 56), 1);
       vx_case_end();
     }
+    /* many live objects: N matrices stay alive (an early one released, so a header block has a hole while the current block is
+       full) during Y; Y must neither change nor be changed by them */
+    for (int nl = 0; nl < 3; nl++) {
+      static const int NL[] = {64, 128, 192}; extern long m4ri_verif_mzd_headers_in_use(void);
+      if (!vx_case_begin("history|%d-live-matrices-with-a-hole|then|%s#%d", NL[nl], MENU[y].op, MENU[y].shape)) continue;
+      if (!have) { base = run_owned(oy, sy, 0, -1); have = 1; m4ri_mmc_cleanup(); }
+      mzd_t *LV[200]; int n = 0;
+      /* exactly NL headers in use (64 per header-cache block): the current block is full when Y asks for its first header */
+      while (m4ri_verif_mzd_headers_in_use() < NL[nl] && n < 200) n++;
+      n = (int)(NL[nl] - m4ri_verif_mzd_headers_in_use()); if (n < 6) n = 6; if (n > 200) n = 200;
+      for (int i = 0; i < n; i++) { LV[i] = mzd_init(1 + (i % 3), 10 + i); mzd_write_bit(LV[i], 0, i % 10, 1); }
+      mzd_free(LV[5]); LV[5] = NULL;
+      outcome g = run_owned(oy, sy, 0, -1);
+      char desc[200]; snprintf(desc, sizeof desc, "%s with %d live matrices (one released)", MENU[y].op, n);
+      compare(oy, "call-history", base, g, desc);
+      for (int i = 0; i < n; i++) if (LV[i]) { if (LV[i]->nrows != 1 + (i % 3) || LV[i]->ncols != 10 + i || !mzd_read_bit(LV[i], 0, i % 10)) { vx_fail(oy->name, "bystander-changed", "%s: live matrix %d (%dx%d) was changed by the operation", desc, i, 1 + (i % 3), 10 + i); break; } }
+      for (int i = 0; i < n; i++) if (LV[i]) mzd_free(LV[i]);
+      vx_input(base.dig ^ (0x99ULL << 50) ^ (uint64_t)nl, 1);
+      vx_case_end();
+    }
     /* library-level history: explicit m4ri_fini() (optionally after a call that warmed the caches), heap traffic, m4ri_init(), then Y */
     for (int warm = 0; warm < 2; warm++) {
       if (!vx_case_begin("history|%sm4ri_fini;m4ri_init|then|%s#%d", warm ? "mzd_mul;" : "", MENU[y].op, MENU[y].shape)) continue;
